@@ -175,6 +175,7 @@ def run(P, R):
                 'container expression it iterates (skipped elements / RuntimeError); iteration over a copy '
                 '(list(x), x.copy(), sorted(x), x[:]) is the accepted idiom', 5)
     iter_mutation(P, R, r8)
+    shared.reentrant_iterations(P, R, r8)
     # ---------------------------------------------------------------- R9
     r9 = R.rule('R9', 'remove() needs membership', 'every X.remove(y) on a collection received as a parameter (core '
                 'modules) is dominated by the fact `y in X`, or y iterates (a copy of) X, or the call is inside '
